@@ -82,6 +82,7 @@ def P_C20 (c : CliCase) (o : CliObs) : Verdict :=
   -- a well-formed ADDRESS/INTERFACE.METHOD whose address is the one the service listens on must reach it
   if c.listening && (url_ok c) && o.conns == 0 then
     (if c.hosts then some "service-not-contacted-although-its-host-name-resolves-to-the-address-it-listens-on"
+     else if c.listen.startsWith "tcp:[" then some "service-not-contacted-although-it-listens-on-the-ipv6-literal-address-given"
      else some "address-method-argument-not-split-at-the-last-slash (service not contacted)") else
   if o.conns == 0 || o.log.isEmpty then
     -- nothing was called: nothing may be printed, and that is a failure
